@@ -9,6 +9,7 @@ import (
 	"fmt"
 	"math"
 	"math/big"
+	"sort"
 	"strconv"
 	"strings"
 	"testing"
@@ -273,6 +274,98 @@ func doArith(sub string, c arithCase) string {
 	rec.Class("reps/" + c.RepA + "," + c.RepB)
 	rec.Sample(c)
 	return checkArith(c)
+}
+
+// n-ary sums and products: `add`, add/1, reduce, chained operators, with the
+// same operand object possibly occurring several times.
+type naryCase struct {
+	Query string   `json:"query"`
+	Vals  []string `json:"vals"`
+	Reps  []string `json:"reps"`
+	Same  []int    `json:"same"` // Same[i] = j < i: operand i is the very same Go object as operand j (-1: own object)
+}
+
+var naryQueries = map[string]string{
+	"add":                                    "sum",
+	"add(.[])":                               "sum",
+	"reduce .[] as $x (0; . + $x)":           "sum",
+	"reduce .[] as $x (null; . + $x)":        "sum",
+	"[foreach .[] as $x (0; . + $x)] | last": "sum",
+	". as $a | reduce range(length) as $i (0; . + $a[$i])": "sum",
+	"[.[], .[]] | add":             "sum2",
+	"add + add":                    "sum2",
+	"[.[] | . * 2] | add":          "sum2",
+	"[add, add] | add":             "sum2",
+	"reduce .[] as $x (1; . * $x)": "prod",
+	"[.[] | -.] | add":             "negsum",
+	"add - add":                    "zero",
+	"[.[], (.[] | -.)] | add":      "zero",
+	"reduce .[] as $x (0; . - $x)": "negsum",
+	"(add) as $s | $s - add":       "zero",
+}
+
+var naryCodes = map[string]*gojq.Code{}
+
+func init() {
+	for q := range naryQueries {
+		naryCodes[q] = run.MustCompile(q)
+	}
+}
+
+func checkNary(c naryCase) string {
+	code := naryCodes[c.Query]
+	if code == nil || len(c.Vals) != len(c.Reps) || len(c.Vals) != len(c.Same) {
+		return "bad case"
+	}
+	in := make([]any, len(c.Vals))
+	bigs := make([]*big.Int, len(c.Vals))
+	for i, v := range c.Vals {
+		b, ok := new(big.Int).SetString(v, 10)
+		if !ok {
+			return "bad case"
+		}
+		bigs[i] = b
+		if j := c.Same[i]; j >= 0 && j < i && c.Vals[j] == v && c.Reps[j] == c.Reps[i] {
+			in[i] = in[j]
+		} else {
+			in[i] = mk(b, c.Reps[i])
+		}
+	}
+	want := new(big.Int)
+	switch naryQueries[c.Query] {
+	case "sum", "sum2", "negsum":
+		for _, b := range bigs {
+			want.Add(want, b)
+		}
+		if naryQueries[c.Query] == "sum2" {
+			want.Lsh(want, 1)
+		}
+		if naryQueries[c.Query] == "negsum" {
+			want.Neg(want)
+		}
+	case "prod":
+		want.SetInt64(1)
+		for _, b := range bigs {
+			want.Mul(want, b)
+		}
+	case "zero":
+	}
+	snapshot := univ.Copy(in)
+	// run twice: the second run sees whatever the first did to the operands
+	for round := 0; round < 2; round++ {
+		res := run.Exec(code, in, 0, 10)
+		if res.Err != nil || len(res.Vals) != 1 {
+			return fmt.Sprintf("%s on %s: err=%v outputs=%s", c.Query, univ.Show(in), res.Err, univ.ShowAll(res.Vals))
+		}
+		g, ok := exact(res.Vals[0])
+		if !ok || g.Cmp(want) != 0 {
+			return fmt.Sprintf("%s on %s (run %d) = %s, exact result is %s", c.Query, univ.Show(snapshot), round+1, univ.Show(res.Vals[0]), want)
+		}
+		if !univ.Same(in, snapshot) {
+			return fmt.Sprintf("%s modified its operands: %s -> %s", c.Query, univ.Show(snapshot), univ.Show(in))
+		}
+	}
+	return ""
 }
 
 // ---------------------------------------------------------------------------
@@ -690,6 +783,12 @@ func replayCase(sub string, raw json.RawMessage) string {
 			return "bad replay: " + err.Error()
 		}
 		return checkArith(c)
+	case "nary":
+		var c naryCase
+		if err := json.Unmarshal(raw, &c); err != nil {
+			return "bad replay: " + err.Error()
+		}
+		return checkNary(c)
 	case "literal":
 		var c litCase
 		if err := json.Unmarshal(raw, &c); err != nil {
@@ -794,6 +893,47 @@ func TestC10(t *testing.T) {
 		}
 	})
 
+	// n-ary sums / products with repeated operand objects
+	var nqs []string
+	for q := range naryQueries {
+		nqs = append(nqs, q)
+	}
+	sort.Strings(nqs)
+	rec.Rapid(t, "nary", rec.Scale(40000, 2000000), func(t *rapid.T) {
+		n := rapid.IntRange(1, 5).Draw(t, "n")
+		c := naryCase{Query: rapid.SampledFrom(nqs).Draw(t, "query")}
+		for i := 0; i < n; i++ {
+			same := -1
+			if i > 0 && rapid.IntRange(0, 2).Draw(t, "repeat") == 0 {
+				same = rapid.IntRange(0, i-1).Draw(t, "same")
+				c.Vals, c.Reps = append(c.Vals, c.Vals[same]), append(c.Reps, c.Reps[same])
+			} else {
+				b := genBig().Draw(t, "v")
+				if naryQueries[c.Query] == "prod" && b.BitLen() > 70 {
+					b = big.NewInt(int64(b.BitLen()))
+				}
+				c.Vals, c.Reps = append(c.Vals, b.String()), append(c.Reps, rapid.SampledFrom(repsOf(b)).Draw(t, "rep"))
+			}
+			c.Same = append(c.Same, same)
+		}
+		rec.Eval()
+		nt := false
+		for i, v := range c.Vals {
+			b, _ := new(big.Int).SetString(v, 10)
+			if !fits(b) || nearEdge(b) || c.Same[i] >= 0 {
+				nt = true
+			}
+		}
+		if nt {
+			rec.NT("nary/" + fmt.Sprint(c))
+		}
+		rec.Class("nary/" + naryQueries[c.Query])
+		rec.Sample(c)
+		if msg := checkNary(c); msg != "" {
+			t.Fatalf("%s", rec.Fail("nary", c, "%s", msg))
+		}
+	})
+
 	// literals through the library
 	qs := litQueries
 	for i, l := range fixedLits {
@@ -887,4 +1027,3 @@ func TestC10(t *testing.T) {
 		}
 	})
 }
-
